@@ -923,6 +923,14 @@ func judgeIso(e *ev.Env, c *ev.Case, ic isoCase) {
 
 // compareIso judges the two observations of the probe: on a fresh app (f…) and after the history (h…).
 func compareIso(e *ev.Env, c *ev.Case, ic isoCase, detail func(map[string]any) map[string]any, fsv served, fs *isoSink, hsv served, hs *isoSink) {
+	// the drive is part of the signature: a leak that only exists behind the net/http adaptor has
+	// another cause than one on the app's own server
+	viol := func(sig, what string, d any) {
+		if ic.Adaptor {
+			sig += "|via-adaptor"
+		}
+		e.Violation(c, sig, what, d)
+	}
 	if ic.Probe.ViaEH {
 		// the ErrorHandler invoked last (the probe is the last request) is the observer
 		fs.vec, fs.probes, fs.reused = fs.ehVec, min(fs.ehCount, 1), fs.ehReused
@@ -939,7 +947,7 @@ func compareIso(e *ev.Env, c *ev.Case, ic isoCase, detail func(map[string]any) m
 		return
 	}
 	if fs.reused {
-		e.Violation(c, "harness|fresh-app-reused-context", "the fresh reference app served the probe on a used context", detail(nil))
+		viol("harness|fresh-app-reused-context", "the fresh reference app served the probe on a used context", detail(nil))
 	}
 	if hs.reused {
 		e.Stat("probe_on_reused_ctx", 1)
@@ -984,7 +992,7 @@ func compareIso(e *ev.Env, c *ev.Case, ic isoCase, detail func(map[string]any) m
 			flashDone = true
 			sig = "leak|flash-messages|probe-cookie=" + ic.Probe.Class
 		}
-		e.Violation(c, sig, "probe observation after the history differs from the observation on a fresh app: "+k,
+		viol(sig, "probe observation after the history differs from the observation on a fresh app: "+k,
 			detail(map[string]any{"component": k, "fresh": fs.vec[k], "after_history": hs.vec[k]}))
 	}
 	// raw response bytes (Date normalised). The body is the vector, so it is judged only when the
@@ -994,7 +1002,7 @@ func compareIso(e *ev.Env, c *ev.Case, ic isoCase, detail func(map[string]any) m
 		reported := false
 		if fr.Status != hr.Status {
 			reported = true
-			e.Violation(c, "leak|response|status", "probe response status differs from the fresh app's",
+			viol("leak|response|status", "probe response status differs from the fresh app's",
 				detail(map[string]any{"fresh": fr.Status, "after_history": hr.Status}))
 		}
 		fh, hh := hdrMap(fr), hdrMap(hr)
@@ -1017,17 +1025,17 @@ func compareIso(e *ev.Env, c *ev.Case, ic isoCase, detail func(map[string]any) m
 			}
 			if strings.Join(fh[n], "\x00") != strings.Join(hh[n], "\x00") {
 				reported = true
-				e.Violation(c, "leak|response|header|"+n, "probe response header differs from the fresh app's",
+				viol("leak|response|header|"+n, "probe response header differs from the fresh app's",
 					detail(map[string]any{"header": n, "fresh": fh[n], "after_history": hh[n]}))
 			}
 		}
 		if !vecDiff && !bytes.Equal(fr.Body, hr.Body) {
 			reported = true
-			e.Violation(c, "leak|response|body", "probe response body differs from the fresh app's",
+			viol("leak|response|body", "probe response body differs from the fresh app's",
 				detail(map[string]any{"fresh": string(fr.Body), "after_history": string(hr.Body)}))
 		}
 		if !reported && !vecDiff {
-			e.Violation(c, "leak|response|bytes", "probe response bytes differ from the fresh app's",
+			viol("leak|response|bytes", "probe response bytes differ from the fresh app's",
 				detail(map[string]any{"fresh": string(fsv.probeRaw), "after_history": string(hsv.probeRaw)}))
 		}
 	}
